@@ -2,6 +2,7 @@ import TLVerif.Syntaxtl2.Parser
 import TLVerif.Syntaxtl2.Format
 import TLVerif.Syntaxtl2.FormatLemmas
 import TLVerif.Syntaxtl2.StructLemmas
+import TLVerif.Syntaxtl2.FileLemmas
 /-! # C22 — TL2 formatter round-trips and is idempotent
 
 Statement (fixed): formatting any parsed TL2 file (with the default and the canonical options) yields text that parses
@@ -9,10 +10,14 @@ to the same declarations, and formatting that text again yields the same text.
 
 `RoundTrip o f` / `Idempotent o f` below are the two halves for one options value; `Statement` is the property at
 full strength over the model (`parseTL2File`, `printFile`). It is FALSE for the unchanged code: two counter-examples
-are proved (`statement_fails`, known_findings.d/C22.json). What is proved for ALL files: idempotence follows from the
-round trip (canonical options: from the declarations alone; default options: from everything the formatter can
-print), i.e. the formatter reads nothing else. The round trip itself, outside the two guards, is NOT a theorem here:
-it is explored by checks/C22.py through the tie (see manifest.d/C22.json). -/
+are proved (`statement_fails`, known_findings.d/C22.json). What is proved for ALL files:
+* idempotence follows from the round trip (canonical options: from the declarations alone; default options: from
+  everything the formatter can print), i.e. the formatter reads nothing else;
+* the TL2 parser is complete on printed token sequences (`parse_of_printed_token_sequence`), hence the round trip holds
+  for every well-formed file whose printed text passes the decidable lexing certificate
+  (`roundtrip_of_lex_certificate`); checks/C22.py evaluates the certificate on every explored instance (T3).
+NOT a theorem: that the certificate holds for all well-formed files (lexing of the printed text), and the round trip
+outside `File.wf`; these are explored through the tie (see manifest.d/C22.json). -/
 namespace TLVerif.Props.C22
 open TLVerif.Syntaxtl2
 
@@ -107,6 +112,28 @@ theorem struct_roundtrip_tokens {N : Nat} {tx : Bytes} {it : Iter} (hc : Ctx N t
       strip rest = semiTK :: ks ∧ rest <:+ its :=
   structS hc sd hwf its hs ks pos fuel hm hf
 
+/-- **Parser completeness on printed token sequences** (all well-formed files): whenever the lexer turns a text into
+the token sequence of `f` (white space/comments aside, none right after a `:`), `ParseTL2File` returns `f` up to
+comments. Covers annotations, names, magic, template arguments, aliases, field lists, unions, function arguments and
+alias/struct function results; not the bare-type-reference function result (`=> T`). -/
+theorem parse_of_printed_token_sequence (tx : Bytes) (f : File) (lx : Lexed) (hlx : lexTL2 tx = .ok lx) (herr : lx.err = none)
+    (hadj : NoWSAfterColon lx.toks) (hwf : File.wf f = true) (hm : strip lx.toks = fileToks f ++ [eofTK]) :
+    ∃ f', parseTL2File tx = .ok (.ok f') ∧ f'.map Comb.core = f.map Comb.core :=
+  parse_of_printed_tokens tx f lx hlx herr hadj hwf hm
+
+/-- **Round trip from the lexing certificate** (T3): for every well-formed file and ANY options, if the decidable
+certificate `lexCert (printFile o f) f` holds — the printed text lexes to the token sequence of `f` — then the text
+parses to the same declarations. checks/C22.py evaluates the certificate for every explored file and both option sets. -/
+theorem roundtrip_of_lex_certificate (o : FormatOptions) (f : File) (hwf : File.wf f = true)
+    (hc : lexCert (printFile o f) f = true) : RoundTrip o f := by
+  obtain ⟨f', h1, h2⟩ := parse_of_lexCert (printFile o f) f hwf hc
+  exact ⟨f', h1, by simpa [File.core] using h2⟩
+
+/-- … and then formatting is idempotent (canonical options). -/
+theorem canonical_idempotent_of_lex_certificate (f : File) (hwf : File.wf f = true)
+    (hc : lexCert (printFile canonicalOptions f) f = true) : Idempotent canonicalOptions f :=
+  canonical_idempotent_of_roundtrip f (roundtrip_of_lex_certificate canonicalOptions f hwf hc)
+
 /-- the hypotheses are satisfiable by non-trivial values: the lexer's tokens of a printed struct body. -/
 def sampleBody : StructDef := .union
   [⟨bs "A", .fields [⟨bs "x", true, false, .bracket (some (.num 3)) (.app ⟨bs "ns", bs "m"⟩ [.ty (.app ⟨[], bs "int"⟩ []), .num 7]), [], []⟩,
@@ -176,6 +203,15 @@ def roundTripB (o : FormatOptions) (f : File) : Bool :=
   match parseTL2File (printFile o f) with
   | .ok (.ok f') => (File.core f').length == (File.core f).length && printFile o f' == printFile o f
   | _ => false
+
+def sample2 : Bytes :=
+  bs "// c\n@x p.q#0000000a<t:Type,n:#> = A | b [n]t | C x?:[]m<t,3> _:int;\nf#00000001 a:int => <=> [string]p.q<int,4>;\n"
+
+example : File.wf (getFile (parseTL2File sample)) = true ∧
+    lexCert (printFile canonicalOptions (getFile (parseTL2File sample))) (getFile (parseTL2File sample)) = true ∧
+    File.wf (getFile (parseTL2File sample2)) = true ∧
+    lexCert (printFile defaultOptions (getFile (parseTL2File sample2))) (getFile (parseTL2File sample2)) = true := by
+  decide +kernel
 
 example : isFile (parseTL2File sample) = true ∧ Guard (getFile (parseTL2File sample)) = true ∧
     roundTripB canonicalOptions (getFile (parseTL2File sample)) = true ∧
